@@ -212,8 +212,14 @@ impl<'a> Tokenizer<'a> {
     }
 
     fn function_or_reference_token(&self, atom: &'a str, start: usize) -> Result<Token<'a>> {
-        let peek = self.peek()?;
-        if peek.is_open_paren() {
+        let mut chars = self.chars.clone();
+        let next_char = loop {
+            match chars.next() {
+                Some((_, ch)) if is_whitespace_char(ch) => continue,
+                other => break other.map(|(_, ch)| ch),
+            }
+        };
+        if next_char == Some('(') {
             return Ok(Token::Function(atom, Span(start, self.current())));
         }
         Ok(Token::Reference(atom, Span(start, self.current())))
